@@ -37,3 +37,4 @@ fields("BinaryVariable", n_vars="int")
 # Task.space_dimension is the sum of the variables' sizes (Task.__init__; checked by the C14 law campaign): never negative
 from pyvc.state import FIELD_INVARIANTS
 FIELD_INVARIANTS["space_dimension"] = lambda z: z >= 0
+fields("MultiVariable", _children="list[Variable]")
